@@ -183,3 +183,11 @@ PROPS["C01"] = dict(
     e1=[],
     e2=["c01"],
 )
+
+PROPS["C13"] = dict(
+    bounds="size model kernels and the output-cost fixed point: every argument over its full range (output size 10..2^32); pure-ADA top-up step: arbitrary proposal state, every measured size and limit symbolic",
+    assumptions=["the grouping logic as a whole (every UTxO spent exactly once, per-transaction balance, fee for the real size) is hash-container code over whole transactions and is NOT decided; "
+                 "it is only exercised natively by the send-all battery when a solver counterexample needs confirmation"],
+    e1=[],
+    e2=["c13"],
+)
